@@ -74,3 +74,14 @@ _add(PropertySpec(
     not_decided=["the command-line tool prints this value (process level, C12 territory)",
                  "sum over the pre-order enumeration = sum over internal nodes (enumeration covers each node once: assumed ete3 traverse contract)"],
 ))
+
+CR = "superrec2.compute.reconciliation"
+_add(PropertySpec(
+    "C07", files=["compute_reconciliation"],
+    targets=[f"{CR}:reconcile_lca", "lemma_lcamap_root", "lemma_lcamap_common", "lemma_lcamap_deepest",
+             f"{TR}:LowestCommonAncestor.is_ancestor_of"],
+    level="proof", standins=["reconcile_lca:optimal-and-unique-vs-brute-force"],
+    technique="contract-based deductive verification of clauses 1-2 (LCA mapping, validity); optimality/uniqueness: bounded stand-in only",
+    not_decided=["minimum cost among all reconciliations for any dup/loss >= 0, unique when loss > 0: a theorem about the duplication-loss model, "
+                 "not expressible as a contract on reconcile_lca; bounded comparison with brute force only"],
+))
